@@ -48,6 +48,7 @@ var c04Kinds = []string{
 	"reopen-recurring-image",  // same, through Close/Open of the same DB object
 	"live-app-ckpt",           // litestream RUNNING: after its own checkpoint (read mark 0) and a sync to the WAL end, the application commits, checkpoints (mode) and commits again
 	"restart-meta-removed-listing-fault", // new DB object, meta directory removed offline, AND the replica's level-0 listing fails once when the new process first initialises (the database-behind-replica check cannot run)
+	"runtime-reset-racing-sync", // ResetLocalState on the live object while a sync of the same DB (the monitor's tick) lands inside its baseline fetch, after the local level-0 directory was cleared
 	"runtime-reset-ahead",     // ResetLocalState on the live object while the local level-0 chain is AHEAD of the replica (a local sync not yet uploaded) and litestream's own checkpoint (mode) has reset the WAL since: the re-fetched baseline is older than the in-memory cursor
 }
 
@@ -161,7 +162,9 @@ func runC04(rc *Recorder, dir string, rng *rand.Rand, idx int) error {
 	ctx, cancel := context.WithTimeout(ctxb, 120*time.Second)
 	defer cancel()
 
+	w.raceFetch = sc.kind == "runtime-reset-racing-sync"
 	w.ldb = w.newLitestream()
+	w.raceFetch = false
 	if err := w.ldb.Open(); err != nil {
 		return err
 	}
@@ -427,6 +430,20 @@ func runC04(rc *Recorder, dir string, rng *rand.Rand, idx int) error {
 			return err
 		}
 		w.observeReset(rc, stR)
+		if err := away(); err != nil {
+			return err
+		}
+	case "runtime-reset-racing-sync":
+		if err := w.singleWrite("u"); err != nil {
+			return err
+		}
+		w.racer.armed.Store(true)
+		if err := w.ldb.ResetLocalState(ctx); err != nil {
+			return err
+		}
+		if !w.racer.ran.Load() {
+			w.trace = append(w.trace, "race-not-reached")
+		}
 		if err := away(); err != nil {
 			return err
 		}
